@@ -211,7 +211,7 @@ PLANS["C13"] = p_c13
 
 # ---------------------------------------------------------------- C14 hold
 
-T_HOLD = "+W:W;+R:R,vu1rw;+U:U;+T:T,vu1rw||+e:R,vu1ro;+x:R"
+T_HOLD = "+W:W;+R:R,vu1rw;+U:U;+T:T,vu1rw||+e:R,vu1ro;+x:R;+y:T"
 
 
 def c14_shards(tier, prop="C14", mon="C14"):
@@ -221,7 +221,7 @@ def c14_shards(tier, prop="C14", mon="C14"):
         for ring in (1, 2):
             sh.append(mcx("hold-%s-r%d" % (nm, ring), ring=ring, prop=prop, table=T_HOLD, cap=16, shared=ring - 1, name_alpha=alpha, max_name=2, args_alpha="1", max_args=1,
                           suffix_mask=sm, lines=2 if quick else 3, crlf=1, refuse_read=1, refuse_write=1, codes_W="HOLD,OK", codes_R="HOLD,DATA_OK", codes_U="HOLD,OK",
-                          codes_T="HOLD,OK", ecodes_R="OK,HEXIT_OK,HEXIT_ERR,DATA_OK", max_inv=1, tok=1, ev="+e:R,+x:R", act="trigger,hold", trig_budget=2 if quick else 3,
+                          codes_T="HOLD,OK", ecodes_R="OK,HEXIT_OK,HEXIT_ERR,DATA_OK,ERROR,LIST,9", ecodes_T="OK,ERROR,HEXIT_OK,LIST", max_inv=1, tok=1, ev="+e:R,+x:R,+y:T", act="trigger,hold", trig_budget=2 if quick else 3,
                           h_hold_exit=1, mon=mon))
     return sh
 
@@ -299,7 +299,7 @@ PLANS["C18"] = p_c18
 
 # ---------------------------------------------------------------- C20 history independence
 
-T_HIST = "+SR:U;+S:W,vu1rw;+RA:R,vu1ro;+U:UT;D:W,i"   # +S is a proper prefix of the earlier +SR; +R abbreviates +RA
+T_HIST = "+SR:U;+S:W,vu1rw/w;+RA:R,vu1ro/r;+U:UT;D:W,i"   # +S is a proper prefix of the earlier +SR; +R abbreviates +RA
 
 
 def c20_shards(tier):
@@ -312,7 +312,7 @@ def c20_shards(tier):
             for lines in ((3, 0) if lower == 0 else (0,)):
                 sh.append(mcx("history-cap%d-sh%d-lc%d-l%d" % (cap, shared, lower, lines), prop="C20", table=T_HIST, cap=cap, shared=shared, name_alpha="+SRUDA", max_name=3 if quick else 4,
                               args_alpha=aa, max_args=ma, D=1 if lines == 0 else 0, dev=DEV, lines=lines, crlf=1, blank=1, lower=lower, refuse_read=1 if lines == 0 else 0, refuse_write=1 if lines == 0 else 0,
-                              codes_W="OK,ERROR", codes_R="DATA_OK,OK", codes_U="OK,LIST", codes_T="DATA_OK,LIST", max_inv=1, mon="C20"))
+                              codes_W="OK,ERROR", codes_R="DATA_OK,OK", codes_U="OK,LIST", codes_T="DATA_OK,LIST", max_inv=1, varcb_fail=1, mon="C20"))
     # lines whose handlers trigger unsolicited events: the event machine is busy while the response ends and the next line begins
     for ring, shared in ((1, 0), (2, 1)):
         sh.append(mcx("history-events-r%d" % ring, ring=ring, prop="C20", table=T_HIST + "||+e:vu1ro;+f:R", cap=8, shared=shared, name_alpha="+SRUA", max_name=3, args_alpha="1", max_args=1,
@@ -458,6 +458,8 @@ def p_c19(tier):
     sh = sw_shards("describe", "C19", tier, 16, "--family", "vars", "--maxlen", 3, "--restricted3", 1 if quick else 0)
     sh += sw_shards("describe", "C19", tier, 4, "--family", "shapes", "--pairs", 0, tagp="shapes1")
     sh += sw_shards("describe", "C19", tier, 16, "--family", "shapes", "--pairs", 1 if quick else 2, tagp="shapes2")
+    # TEST text regenerated after NEXT / DATA_NEXT of a test handler (both machines, commands with two variables)
+    sh += [s for s in c10_shards(tier, mon="C19", prop="C19") if "cmd-T" in s["tag"] or "evt" in s["tag"]]
     return {"shards": sh, "require": ["runs", "test_forms", "list_lines"],
             "technique": "exhaustive enumeration of descriptors on the real parser: TEST text and command list built from the descriptor by the reference; every request form of every listed command submitted",
             "bounds": "variable lists of length 0..3 over 15 type/width x 3 access x named/unnamed (%s), description and test handler on/off, both machines, exact-fit and one-short capacity; "
